@@ -94,15 +94,18 @@ Proofs/Hidden.vos Proofs/Hidden.vok Proofs/Hidden.required_vos: Proofs/Hidden.v 
 Proofs/Tramp.vo Proofs/Tramp.glob Proofs/Tramp.v.beautified Proofs/Tramp.required_vo: Proofs/Tramp.v Base/Base.vo Model/Reader.vo Model/Printer.vo Model/Store.vo Model/Eval.vo Proofs/ReaderTotal.vo Proofs/EvalRel.vo Proofs/Hidden.vo
 Proofs/Tramp.vio: Proofs/Tramp.v Base/Base.vio Model/Reader.vio Model/Printer.vio Model/Store.vio Model/Eval.vio Proofs/ReaderTotal.vio Proofs/EvalRel.vio Proofs/Hidden.vio
 Proofs/Tramp.vos Proofs/Tramp.vok Proofs/Tramp.required_vos: Proofs/Tramp.v Base/Base.vos Model/Reader.vos Model/Printer.vos Model/Store.vos Model/Eval.vos Proofs/ReaderTotal.vos Proofs/EvalRel.vos Proofs/Hidden.vos
+Proofs/Frame.vo Proofs/Frame.glob Proofs/Frame.v.beautified Proofs/Frame.required_vo: Proofs/Frame.v Base/Base.vo Model/Reader.vo Model/Printer.vo Model/Store.vo Model/Eval.vo Proofs/ReaderTotal.vo Proofs/EvalRel.vo Proofs/Hidden.vo Proofs/Tramp.vo
+Proofs/Frame.vio: Proofs/Frame.v Base/Base.vio Model/Reader.vio Model/Printer.vio Model/Store.vio Model/Eval.vio Proofs/ReaderTotal.vio Proofs/EvalRel.vio Proofs/Hidden.vio Proofs/Tramp.vio
+Proofs/Frame.vos Proofs/Frame.vok Proofs/Frame.required_vos: Proofs/Frame.v Base/Base.vos Model/Reader.vos Model/Printer.vos Model/Store.vos Model/Eval.vos Proofs/ReaderTotal.vos Proofs/EvalRel.vos Proofs/Hidden.vos Proofs/Tramp.vos
 Props/C01.vo Props/C01.glob Props/C01.v.beautified Props/C01.required_vo: Props/C01.v Base/Base.vo Model/Reader.vo Model/Printer.vo Model/Store.vo Model/Eval.vo Model/Init.vo Proofs/EvalRel.vo Proofs/Cont.vo Proofs/CoreRefine.vo Spec/CoreSem.vo
 Props/C01.vio: Props/C01.v Base/Base.vio Model/Reader.vio Model/Printer.vio Model/Store.vio Model/Eval.vio Model/Init.vio Proofs/EvalRel.vio Proofs/Cont.vio Proofs/CoreRefine.vio Spec/CoreSem.vio
 Props/C01.vos Props/C01.vok Props/C01.required_vos: Props/C01.v Base/Base.vos Model/Reader.vos Model/Printer.vos Model/Store.vos Model/Eval.vos Model/Init.vos Proofs/EvalRel.vos Proofs/Cont.vos Proofs/CoreRefine.vos Spec/CoreSem.vos
 Props/C02.vo Props/C02.glob Props/C02.v.beautified Props/C02.required_vo: Props/C02.v Base/Base.vo Model/Reader.vo Model/Printer.vo Model/Store.vo Model/Eval.vo Model/Init.vo Proofs/Calls.vo
 Props/C02.vio: Props/C02.v Base/Base.vio Model/Reader.vio Model/Printer.vio Model/Store.vio Model/Eval.vio Model/Init.vio Proofs/Calls.vio
 Props/C02.vos Props/C02.vok Props/C02.required_vos: Props/C02.v Base/Base.vos Model/Reader.vos Model/Printer.vos Model/Store.vos Model/Eval.vos Model/Init.vos Proofs/Calls.vos
-Props/C03.vo Props/C03.glob Props/C03.v.beautified Props/C03.required_vo: Props/C03.v Base/Base.vo Model/Reader.vo Model/Printer.vo Model/Store.vo Model/Eval.vo Model/Init.vo Proofs/EvalRel.vo
-Props/C03.vio: Props/C03.v Base/Base.vio Model/Reader.vio Model/Printer.vio Model/Store.vio Model/Eval.vio Model/Init.vio Proofs/EvalRel.vio
-Props/C03.vos Props/C03.vok Props/C03.required_vos: Props/C03.v Base/Base.vos Model/Reader.vos Model/Printer.vos Model/Store.vos Model/Eval.vos Model/Init.vos Proofs/EvalRel.vos
+Props/C03.vo Props/C03.glob Props/C03.v.beautified Props/C03.required_vo: Props/C03.v Base/Base.vo Model/Reader.vo Model/Printer.vo Model/Store.vo Model/Eval.vo Model/Init.vo Proofs/EvalRel.vo Proofs/Hidden.vo Proofs/Tramp.vo Proofs/Frame.vo
+Props/C03.vio: Props/C03.v Base/Base.vio Model/Reader.vio Model/Printer.vio Model/Store.vio Model/Eval.vio Model/Init.vio Proofs/EvalRel.vio Proofs/Hidden.vio Proofs/Tramp.vio Proofs/Frame.vio
+Props/C03.vos Props/C03.vok Props/C03.required_vos: Props/C03.v Base/Base.vos Model/Reader.vos Model/Printer.vos Model/Store.vos Model/Eval.vos Model/Init.vos Proofs/EvalRel.vos Proofs/Hidden.vos Proofs/Tramp.vos Proofs/Frame.vos
 Props/C04.vo Props/C04.glob Props/C04.v.beautified Props/C04.required_vo: Props/C04.v Base/Base.vo Model/Reader.vo Model/Printer.vo Model/Store.vo Model/Eval.vo Model/Init.vo Proofs/EvalRel.vo Proofs/TailCalls.vo Proofs/Calls.vo Proofs/Hidden.vo Proofs/Tramp.vo
 Props/C04.vio: Props/C04.v Base/Base.vio Model/Reader.vio Model/Printer.vio Model/Store.vio Model/Eval.vio Model/Init.vio Proofs/EvalRel.vio Proofs/TailCalls.vio Proofs/Calls.vio Proofs/Hidden.vio Proofs/Tramp.vio
 Props/C04.vos Props/C04.vok Props/C04.required_vos: Props/C04.v Base/Base.vos Model/Reader.vos Model/Printer.vos Model/Store.vos Model/Eval.vos Model/Init.vos Proofs/EvalRel.vos Proofs/TailCalls.vos Proofs/Calls.vos Proofs/Hidden.vos Proofs/Tramp.vos
